@@ -237,6 +237,10 @@ static int gen_source (const pset *S, int pi, const char *pre, int binmode, char
   if (pi == S->top) {
     if (X->has && !(X->fl & MF_HIDDEN)) EMIT ("string tramp_f() { ran(\"T.t\"); return \"t>\" + f(); }\n");
     if (X->has) EMIT ("string fp_f() { ran(\"T.fp\"); return \"fp>\" + evaluate((: f :)); }\n");
+    /* a callee with many locals: setup_variables() is where a nearly full value stack overflows */
+    EMIT ("string lots() { int l0");
+    for (int k = 1; k < 24; k++) EMIT (", l%d", k);
+    EMIT ("; ran(\"T.lots\"); return \"lots:\" + v%c; }\n", N);
   }
   return n;
 }
@@ -329,18 +333,25 @@ enum { N_F, N_G, N_Z, NNAME };
 static const char *name_txt[NNAME] = { "f", "g", "zz_absent" };
 static char *sname[NNAME];                    /* shared-string pointers (as call_other / call_out / add_action pass them) */
 static char lit_f[] = "f";                    /* a C literal, as most driver applies pass */
-enum { O_CO, O_COLPC, O_DRV, O_DRVLIT, O_COUT, O_TRAMP, O_FP, O_FEX, O_DEEP, NORG };
+enum { O_CO, O_COLPC, O_DRV, O_DRVLIT, O_COUT, O_TRAMP, O_FP, O_FEX, O_DEEP,
+       O_COPATH, O_COPATHU, O_COARR, O_COARRMIX, O_LOTS, O_LOTSFULL, NORG };
 static const char *oname[NORG] = { "call_other", "call_other-lpc", "driver", "driver-literal", "call_out", "local", "funptr", "function_exists",
-                                   "call_other-at-max-call-depth" };
+                                   "call_other-at-max-call-depth",
+                                   "call_other-by-loaded-path", "call_other-by-unloaded-path", "call_other-on-array-of-objects",
+                                   "call_other-on-array-with-unloaded-path", "driver-lots", "driver-lots-on-nearly-full-value-stack" };
+static char u_path[64], u_name[64];           /* "/c07u<idx>/U": a copy of the most derived program that call_other loads on demand */
+static char top_path[64];
 static int ndeep;                              /* recursion count that leaves no room for the callee's frame (calibrated per element) */
 
 typedef struct { int tgt, name, org; } letter_t;
 #define MAXL 80
 static char *held[1200]; static int nheld;        /* name strings created by the salt (address order), references kept */
 #define NSALTN 25
-static int opt_len, opt_prune, opt_salts, opt_bin, opt_deep;
+static int opt_len, opt_prune, opt_salts, opt_bin, opt_deep, opt_extra;
 static letter_t L[MAXL];
-static int nL, nD;                            /* normal letters [0,nL), call_other-at-max-call-depth letters [nL,nL+nD) */
+static int nL, nD, nX;                        /* normal letters [0,nL), call_other-at-max-call-depth letters [nL,nL+nD),
+                                                 letters with other target forms / a nearly full value stack [nL+nD,nL+nD+nX) */
+static int u_used;                            /* the on-demand copy may be loaded */
 static char *cold[MAXL];
 
 static object_t *caller_ob;
@@ -359,11 +370,23 @@ static const char *get_rlog (void) {
   return v->type == T_STRING ? v->u.string : "?";
 }
 
-struct coarg { object_t *o; char *name; char out[600]; };
+struct coarg { object_t *o; char *name; char out[600]; int form; object_t *o2; };
 static void co_direct (void *p) {
   struct coarg *a = p;
   current_object = caller_ob;
-  push_object (a->o);
+  switch (a->form) {
+  case O_COPATH: copy_and_push_string (top_path); break;
+  case O_COPATHU: copy_and_push_string (u_path); break;
+  case O_COARR: case O_COARRMIX: {
+    array_t *v = allocate_array (2);
+    v->item[0].type = T_OBJECT; v->item[0].u.ob = a->o; add_ref (a->o, "c07");
+    if (a->form == O_COARR) { v->item[1].type = T_OBJECT; v->item[1].u.ob = a->o2; add_ref (a->o2, "c07"); }
+    else { v->item[1].type = T_STRING; v->item[1].subtype = STRING_SHARED; v->item[1].u.string = make_shared_string (u_path); }
+    push_refed_array (v);
+    break;
+  }
+  default: push_object (a->o);
+  }
   push_shared_string (a->name);
   st_num_arg = 2;
   f_call_other ();
@@ -382,8 +405,17 @@ static char *do_call (object_t *o, int org, const char *name, char *shname) {
   svalue_t *sp0 = sp;
   reset_rlog ();
   switch (org) {
+  case O_LOTS: r = hx_apply_origin (o, "lots", 0, ORIGIN_DRIVER); break;
+  case O_LOTSFULL: {
+    /* fill the value stack so that the control frame and (no) arguments fit, the callee's 24 locals do not */
+    long room = 12, pad = (long) (end_of_stack - sp) - room;
+    for (long k = 0; k < pad; k++) push_number (0);
+    r = hx_apply_origin (o, "lots", 0, ORIGIN_DRIVER);
+    break;
+  }
+  case O_COPATH: case O_COPATHU: case O_COARR: case O_COARRMIX:
   case O_CO: {
-    struct coarg a; a.o = o; a.name = shname; a.out[0] = 0;
+    struct coarg a; a.o = o; a.name = shname; a.out[0] = 0; a.form = org; a.o2 = tob[S.ntgt - 1];
     applied = 0;
     if (hx_guard (co_direct, &a)) { current_object = 0; snprintf (res, sizeof res, "ERR:%.200s", hx_last_error); }
     else snprintf (res, sizeof res, "%s", a.out);
@@ -528,7 +560,7 @@ static void build_alphabet (void) {
   nL = 0;
   for (int t = 0; t < S.ntgt; t++) {
     int istop = S.tprog[t] == S.top;
-    for (int org = 0; org < NORG; org++)
+    for (int org = 0; org <= O_FEX; org++)
       for (int nm = 0; nm < NNAME; nm++) {
         if ((org == O_COLPC || org == O_DRVLIT || org == O_TRAMP || org == O_FP || org == O_DEEP) && nm != N_F) continue;
         if (org == O_DEEP) continue;            /* appended below: explored in a phase of their own */
@@ -544,6 +576,9 @@ static void build_alphabet (void) {
   nD = 0;
   if (opt_deep && S.graph != 5)
     for (int t = 0; t < S.ntgt; t++) { L[nL + nD].tgt = t; L[nL + nD].name = N_F; L[nL + nD].org = O_DEEP; nD++; }
+  nX = 0;
+  if (opt_extra && S.graph != 5)
+    for (int org = O_COPATH; org <= O_LOTSFULL; org++) { L[nL + nD + nX].tgt = 0; L[nL + nD + nX].name = N_F; L[nL + nD + nX].org = org; nX++; }
 }
 
 /* ------------------------------------------------------------------ oracles on cold results */
@@ -772,8 +807,15 @@ static int ref_check (int n) {
 }
 static int want_canon;
 static char canon_buf[200000];
+static void unload_u (void *unused) {
+  object_t *u = find_object_by_name (u_name);
+  (void) unused;
+  if (u) { destruct_object (u); remove_destructed_objects (); }
+}
+static void check_extra_letter (int li, const char *obs, const char *when);
 static int run_history (int n) {
   int drift = 0;
+  if (u_used) { hx_guard (unload_u, 0); u_used = 0; }      /* every history starts with the on-demand copy not loaded */
   if (!cache_clean) clear_apply_cache ();
   cache_clean = 0;
   for (int i = 0; i < n; i++) {
@@ -784,9 +826,12 @@ static int run_history (int n) {
       /* (ii) holds at every point of every history */
       const letter_t *l = &L[seq[i]];
       if ((l->org == O_CO || l->org == O_COLPC) && l->name == N_F) check_cold_letter (seq[i], obs, "after a history,");
+      if (l->org >= O_COPATH) check_extra_letter (seq[i], obs, "after a history,");
     }
+    if (L[seq[i]].org == O_COPATHU || L[seq[i]].org == O_COARRMIX) u_used = 1;
   }
   if (want_canon) vw_cache_canon (canon_buf, sizeof canon_buf);     /* before the reference check clears the cache */
+  if (u_used) { hx_guard (unload_u, 0); u_used = 0; }      /* its program holds references to the names */
   if (nref) drift = ref_check (n);
   n_hist++;
   return drift;
@@ -808,6 +853,51 @@ static void deep_phase (int maxlen) {
       if (maxlen >= 3)
         for (int b = 0; b < nL; b++) { seq[0] = a; seq[1] = d; seq[2] = b; if (run_history (3)) return; }
     }
+}
+/* call_other with the other forms of its first argument (path of a loaded object, path of an object that call_other has to
+   load first, arrays) and a driver apply issued on a nearly full value stack.  x ranges over these letters:
+   cold x; [x ; y] for all pairs; [a ; x] and [x ; a] for a = the calls of f on the most derived program (maxlen 2) or every call (maxlen >= 3) */
+static void check_extra_letter (int li, const char *obs, const char *when) {
+  const letter_t *l = &L[li];
+  const prog_t *X = &S.p[S.top];
+  char key[200], lt[80];
+  if (l->org > O_COARRMIX) return;
+  letter_text (li, lt, sizeof lt);
+  if (X->rdef >= 0 && (X->fl & MF_RESTRICTED) && ran_f (obs)) {
+    snprintf (key, sizeof key, "C07:visibility:%s-ran-restricted-function", oname[l->org]);
+    set_fail (key, "%s %s ran %s.f, which another object's call_other must not reach: %s", when, lt, S.p[X->rdef].nm, obs);
+  }
+}
+static void extra_phase (int maxlen) {
+  int x0 = nL + nD;
+  for (int x = x0; x < x0 + nX; x++) {
+    if (u_used) { hx_guard (unload_u, 0); u_used = 0; }
+    clear_apply_cache ();
+    cold[x] = strdup (do_letter (x));
+    if (L[x].org == O_COPATHU || L[x].org == O_COARRMIX) u_used = 1;
+    check_extra_letter (x, cold[x], "cold");
+    char lt[80]; letter_text (x, lt, sizeof lt);
+    vx_obs ("cold %s = %s", lt, cold[x]);
+    /* by path = by object */
+    if (L[x].org == O_COPATH || L[x].org == O_COPATHU)
+      for (int a = 0; a < nL; a++)
+        if (L[a].org == O_CO && L[a].tgt == 0 && L[a].name == N_F && strcmp (cold[a], cold[x])) {
+          char key[160]; snprintf (key, sizeof key, "C07:resolve:%s:%s", shape_class (), oname[L[x].org]);
+          set_fail (key, "cold %s = %s, the same call with the object as target gives %s", lt, cold[x], cold[a]);
+        }
+    if (L[x].org == O_LOTS && strncmp (cold[x], "\"lots:", 6)) set_fail ("C07:resolve:lots", "cold %s = %s", lt, cold[x]);
+    if (L[x].org == O_LOTSFULL && strncmp (cold[x], "ERR:", 4)) set_fail ("C07:harness:value-stack-not-full", "cold %s = %s: the callee's locals still fitted", lt, cold[x]);
+  }
+  for (int x = x0; x < x0 + nX; x++)
+    for (int y = x0; y < x0 + nX; y++) { seq[0] = x; seq[1] = y; run_history (2); }
+  if (maxlen < 2 || opt_extra < 2) return;      /* --extra=1: cold results and pairs only */
+  for (int a = 0; a < nL; a++) {
+    if (maxlen < 3 && !(L[a].name == N_F && S.tprog[L[a].tgt] == S.top)) continue;
+    for (int x = x0; x < x0 + nX; x++) {
+      seq[0] = a; seq[1] = x; run_history (2);
+      seq[0] = x; seq[1] = a; run_history (2);
+    }
+  }
 }
 static void enum_histories (int d, int maxlen) {
   for (int li = 0; li < nL; li++) {
@@ -911,7 +1001,17 @@ static int sanitizer_text_since (off_t from) {
   return strstr (buf, "AddressSanitizer") || strstr (buf, "runtime error") ? 1 : 0;
 }
 
-static void elem (long idx) {
+static char u_dir[40];
+static void remove_u (void) {
+  char path[100];
+  if (!u_dir[0]) return;
+  snprintf (path, sizeof path, "%s/U.c", u_dir); unlink (path);
+  rmdir (u_dir);
+  u_dir[0] = 0;
+}
+static void elem_body (long idx);
+static void elem (long idx) { elem_body (idx); remove_u (); }
+static void elem_body (long idx) {
   salt = (int) (idx % opt_salts);
   decode_set (idx / opt_salts, &S);
   if (S.graph == 5) decode_compress (&S);
@@ -923,6 +1023,7 @@ static void elem (long idx) {
 
   caller_ob = hx_load ("/caller.c", 0);
   if (!caller_ob) { vx_fail ("C07:harness:caller", "cannot load caller: %s", hx_last_error); return; }
+  caller_ob->euid = caller_ob->uid;             /* it may load objects (call_other by path) */
 
   object_t *blue[MAXP] = { 0 }, *blue2[MAXP] = { 0 };
   const char *why = 0;
@@ -970,6 +1071,21 @@ static void elem (long idx) {
      n = MaxCallDepth - 1 the frame apply_low() pushes for the callee is the one that does not fit (measured: n - 1 still
      runs the callee and overflows in its simul_efun call) */
   ndeep = CONFIG_INT (__MAX_CALL_DEPTH__) - 1;
+  /* the copy of the most derived program that call_other("<path>", ...) loads on demand: same text, own file */
+  u_dir[0] = 0; u_used = 0;
+  snprintf (top_path, sizeof top_path, "/%s/%s", pre1, S.p[S.top].nm);
+  if (opt_extra && S.graph != 5) {
+    static char usrc[20000];
+    snprintf (u_dir, sizeof u_dir, "c07u%ld", idx);
+    snprintf (u_name, sizeof u_name, "%s/U", u_dir);
+    snprintf (u_path, sizeof u_path, "/%s", u_name);
+    mkdir (u_dir, 0755);
+    int n = gen_source (&S, S.top, pre1, 0, usrc, sizeof usrc);
+    char path[100]; snprintf (path, sizeof path, "%s/U.c", u_dir);
+    FILE *f = fopen (path, "w");
+    if (!f) { vx_fail ("C07:harness:cannot-write-source", "%s: %s", path, strerror (errno)); return; }
+    fwrite (usrc, 1, (size_t) n, f); fclose (f);
+  }
   build_alphabet ();
 
   /* cold results */
@@ -1000,6 +1116,7 @@ static void elem (long idx) {
     vx_count (10, f_below_g != (sname[N_F] < sname[N_G]));
     caller_ob = hx_load ("/caller.c", 0);
     if (!caller_ob) { vx_fail ("C07:harness:caller", "cannot reload caller: %s", hx_last_error); return; }
+    caller_ob->euid = caller_ob->uid;
     n_loaded_binaries = 0;
     int r2 = load_set (pre1, 1, blue, 2);
     if (r2 >= 0) { set_fail ("C07:binary:reload-failed", "program %s failed to load again: %s", S.p[r2].nm, clog_txt); return; }
@@ -1048,6 +1165,8 @@ static void elem (long idx) {
   if (opt_len > 0) enum_histories (0, opt_len);
   if (opt_prune > 8) opt_prune = 8;
   if (opt_prune > 0) explore_states (opt_prune);
+  if (nX && opt_len > 0) extra_phase (opt_len);
+  if (u_used) { hx_guard (unload_u, 0); u_used = 0; }
   if (nD && opt_len > 0) deep_phase (opt_len);
   vx_count (3, n_hist);
   vx_count (4, n_calls);
@@ -1083,6 +1202,7 @@ int main (int argc, char **argv) {
   opt_salts = (int) vx_opt_long ("salts", 1);
   opt_bin = (int) vx_opt_long ("bin", 0);
   opt_deep = (int) vx_opt_long ("deep", 1);
+  opt_extra = (int) vx_opt_long ("extra", 2);
   selftest = (int) vx_opt_long ("selftest", 0);
   /* scratch copy of the C07 mudlib (binaries and generated sources are written below it); on tmpfs when
      there is one: the round trip creates and deletes ~10 files per element */
